@@ -3,6 +3,7 @@
 package controller
 
 import (
+	"github.com/markusressel/fan2go/internal/control_loop"
 	"github.com/markusressel/fan2go/internal/fans"
 )
 
@@ -89,4 +90,9 @@ func (f *DefaultFanController) VerifCaptureOriginal(pwm int, mode int) {
 
 func (f *DefaultFanController) VerifComputePwmMap() error {
 	return f.computePwmMap()
+}
+
+// VerifControlLoop returns the control loop that was selected for this controller (nil if none)
+func (f *DefaultFanController) VerifControlLoop() control_loop.ControlLoop {
+	return f.controlLoop
 }
